@@ -110,6 +110,15 @@ public :
     flushBuffer();
 
     /**
+     * Flush the stream's transcoding buffer to make room for more
+     * characters.  If the last code unit in the buffer is the first
+     * half of a surrogate pair, it stays in the buffer, so the
+     * transcoder never sees half of a pair.
+     */
+    void
+    flushBufferKeepingSplitPair();
+
+    /**
      * Flush the stream's buffer.
      */
     void
@@ -143,9 +152,9 @@ public :
     {
         assert(m_bufferSize > 0);
 
-        if (m_buffer.size() == m_bufferSize)
+        if (m_buffer.size() >= m_bufferSize)
         {
-            flushBuffer();
+            flushBufferKeepingSplitPair();
         }
 
         m_buffer.push_back(theChar);
